@@ -3,7 +3,7 @@
    rule instance, whenever the model says the rule applies the tree it builds means the same (value / solution set) and
    has the same variables.  Also explores rewriting sessions driven by the model alone (Steps > 0). *)
 EXTENDS RulesImpl, TLC
-CONSTANTS LeafChoice, Steps, Thin
+CONSTANTS LeafChoice, Steps, Thin, EmitScripts
 C(n) == [k |-> "c", n |-> n, d |-> 1]
 XV == [k |-> "v", id |-> 120]
 YV == [k |-> "v", id |-> 121]
@@ -15,15 +15,20 @@ D2 == IF Thin THEN D1 \cup {[k |-> "neg", c |-> x] : x \in D1}
                        \cup {[k |-> b, l |-> x, r |-> y] : b \in BinK, x \in D1, y \in Leaves} \cup {[k |-> b, l |-> y, r |-> x] : b \in BinK, x \in D1, y \in Leaves}
                        \cup {[k |-> "eq", l |-> x, r |-> y] : x \in D1, y \in Leaves} \cup {[k |-> "eq", l |-> y, r |-> x] : x \in D1, y \in Leaves}
       ELSE Layer(D1) \cup {[k |-> "eq", l |-> x, r |-> y] : x \in D1, y \in D1}
-VARIABLES start, cur, n
-Init == start \in D2 /\ cur = start /\ n = 0
+VARIABLES start, cur, n, script
+Starts == IF EmitScripts THEN D1 \cup {[k |-> b, l |-> x, r |-> y] : b \in {"add", "mul", "sub"}, x \in D1, y \in Leaves}
+                                \cup {[k |-> "eq", l |-> x, r |-> y] : x \in D1, y \in Leaves} ELSE D2
+Init == start \in Starts /\ cur = start /\ n = 0 /\ script = <<>>
 Applicable(t) == {<<ri, p>> \in RuleInstances \X AllPaths(t) : ImplCan(ri[1], ri[2], t, p) = "yes"}
 Next == /\ n < Steps /\ n' = n + 1 /\ UNCHANGED start
-        /\ \E a \in Applicable(cur) : cur' = ImplOut(a[1][1], a[1][2], cur, a[2])
+        /\ \E a \in Applicable(cur) : /\ cur' = ImplOut(a[1][1], a[1][2], cur, a[2])
+                                       /\ script' = IF EmitScripts THEN Append(script, <<a[1][1], a[1][2], a[2]>>) ELSE script
         /\ TSize(cur') <= 24
 \* every applicable model step from the current term is allowed by the contract
 StepsAllowed == \A a \in Applicable(cur) : ImplStepAllowed(a[1][1], a[1][2], cur, a[2])
 \* sessions stay equivalent to their start
 SessionEquivalent == IF start.k = "eq" THEN cur.k = "eq" /\ SameSolutions(start, cur) ELSE Equiv(start, cur)
+\* spec -> code: every maximal model behaviour is written out as a script for replay into the real rules
+Emit == (EmitScripts /\ n = Steps) => PrintT(<<"W", start, script, cur>>)
 Count == TLCGet("generated") >= 0 /\ PrintT(<<"TERMS", TLCGet("distinct")>>)
 =============================================================================
